@@ -61,6 +61,10 @@ def run(ctx):
         exp = canon(c["expected"])
         if got != exp:
             sig = "C18/%s/%s" % (c["tpl"], ",".join(c["argskel"]))
+            if c.get("uoc") and got == canon(c["undetermined"]):
+                # union-of-containers argument and every type parameter left `unknown`: the matcher bound nothing
+                # (incomplete); any other answer -- e.g. one member's element type -- is a wrong substitution
+                sig += "/undetermined"
             by_sig.setdefault(sig, []).append({
                 "generics": c["decl"]["generics"], "params": c["decl"]["params"], "return": c["decl"]["ret"],
                 "argument_types": c["args"], "expected_return_type": c["expected_syntax"],
@@ -74,7 +78,9 @@ def run(ctx):
     ctx.rule("template x argument-type tuples enumerated by TLC (argument types of depth <= 2 and nested containers of "
              "depth 3); judged where the reference matcher has a unique answer binding every parameter of the return type "
              "(an optional pattern `q?` matches q against the whole argument, so optional / union / nil arguments are "
-             "judged); non-trivial = a constructed argument type or more than one argument")
+             "judged; a union of arrays / of tables for T[] / table<K,V> is judged element-wise: T := the union of the element "
+             "types); non-trivial = a constructed argument type or more than one argument")
+    ctx.note("judged_with_union_of_containers_argument", sum(1 for c in cases if c["judged"] and c.get("uoc")))
     ctx.note("judged_with_nullable_argument_for_optional_pattern",
              sum(1 for c in cases if c["judged"] and c.get("optnil")))
     ctx.assume("literal widening as in semantic/generic/widening.rs: a parameter bound to a bare literal type is instantiated "
